@@ -349,12 +349,18 @@ def generate():
         dbc = {"CHANNELDB_TARGET_VERSION": prev.get("channelTarget", 1), "USAGEDB_TARGET_VERSION": prev.get("usageTarget", 2)}
     try:
         alloc = alloc_constants(os.path.join(SRC, "server.py"))
-        alloc_text = alloc_body(os.path.join(SRC, "server.py"))
     except (TranslateError, OSError, SyntaxError) as e:
         errors["alloc"] = str(e)
         alloc = {"sizeLo": prev.get("allocSizeLo", 1), "sizeHi": prev.get("allocSizeHi", 4), "tries": prev.get("allocTries", 1000),
                  "lo": prev.get("allocLo", 1000), "hi": prev.get("allocHi", 1000000)}
-        alloc_text = _previous_alloc_text()
+    # the body, statement by statement: a shape alloc_body does not read is NOT an alarm - the stub below makes
+    # Tie/Alloc.lean fail, which un-ties the static tie of the AppNamespace methods (a NOTE and a wider search)
+    try:
+        alloc_text = alloc_body(os.path.join(SRC, "server.py"))
+    except (TranslateError, OSError, SyntaxError) as e:
+        errors["alloc_body"] = str(e)
+        alloc_text = ("-- NOT TRANSLATED: %s\n" % str(e).replace("\n", " ")[:300] +
+                      "def genFindAvailable (claimed : List String) (pick : Nat) (draws : List Nat) : Option String :=\n  none")
     sch = os.path.join(SRC, "db-schemas")
     scripts = {}
     try:
